@@ -1,16 +1,20 @@
 """Gen/SignalHandlers.lean: what the two signal handlers of renamify-cli/src/main.rs do, where the interrupted flag is
-checked, and who activates the confirmation-prompt guard (renamify-core/src/interrupt.rs and its users).
+consulted, who activates the confirmation-prompt guard (renamify-core/src/interrupt.rs and its users) and whether the
+prompt exit releases the held locks (renamify-core/src/lock.rs).
 
 Extracted syntactically (brace matching on the Rust text with comments and string literals blanked):
   * the closure passed to `ctrlc::set_handler` (SIGINT) and to `signal_hook::low_level::register(SIGTERM, ..)`:
     does it store `true` to the flag; every `process::exit(N)` in it, split into "inside an
-    `if ...confirmation_prompt_active() {` block" and "elsewhere"; how many other calls it makes
-    (anything but eprintln!/swap/store/exit/confirmation_prompt_active);
-  * the statement `if interrupted.load(..) { .. process::exit(N) }` between `let result = match cli.command`
-    and `match result`: present, its position relative to both, the constant N;
-  * to which command handlers the flag is handed (`Arc::clone(&interrupted)` inside the command match);
+    `if ...confirmation_prompt_active() {` block" and "elsewhere"; whether `release_held_locks()` is called inside
+    that block before the exit; how many other calls it makes (anything but eprintln!/swap/store/exit/
+    confirmation_prompt_active/the guarded release_held_locks);
+  * where the flag decides the status after `let result = match cli.command`: `all` = the statement
+    `if interrupted.load(..) { .. process::exit(N) }` before `match result` (the shape before 279b830), `okOnly` =
+    `let X = interrupted.load(..);` followed by `if X { .. exit(N) }` inside the `Ok(())` arm only, `none`; the constant N;
+  * to which command handlers the flag is handed (`interrupted` mentioned inside an arm of the command match);
   * interrupt.rs: activate() stores true, Drop stores false, confirmation_prompt_active() loads; the call sites of
-    `ConfirmationPromptGuard::activate` in renamify-core and renamify-cli.
+    `ConfirmationPromptGuard::activate` in renamify-core and renamify-cli;
+  * lock.rs: acquire registers the path in HELD_LOCKS and release_held_locks removes the registered files.
 Raises if main.rs / interrupt.rs do not have the expected shape (broken tie)."""
 import os
 import re
@@ -34,6 +38,7 @@ def closure_body(text, anchor_re, what):
 
 
 ALLOWED_CALLS = {"eprintln", "eprint", "exit", "swap", "store", "confirmation_prompt_active", "load"}
+RELEASE = "release_held_locks"
 
 
 def analyse_handler(text, a, b, what):
@@ -55,10 +60,17 @@ def analyse_handler(text, a, b, what):
     if re.search(r"\b(exit|abort|_exit)\s*\(\s*[^\d\s)]", body):
         raise Shape(f"{what}: exit with a non-constant code")
     others = []
+    releases = False
     for m in re.finditer(r"([A-Za-z_][\w:]*)\s*(!?)\s*\(", body):
         name = m.group(1).split("::")[-1]
         if name in ("if", "while", "match", "for", "return", "move"):
             continue
+        if name == RELEASE and any(x < m.start() < y for x, y in guarded):
+            # lock::release_held_locks() inside the prompt-guard block, before the exit in it
+            ex = [e.start() for e in re.finditer(r"\bexit\s*\(", body) if any(x < e.start() < y for x, y in guarded)]
+            if ex and m.start() < min(ex):
+                releases = True
+                continue
         if name not in ALLOWED_CALLS:
             others.append(m.group(1))
     for m in re.finditer(r"\.\s*([A-Za-z_]\w*)\s*\(", body):
@@ -67,7 +79,7 @@ def analyse_handler(text, a, b, what):
     if len(set(under)) > 1 or len(set(always)) > 1:
         raise Shape(f"{what}: several different exit codes")
     return {"sets_flag": sets_flag, "under": under[0] if under else None, "always": always[0] if always else None,
-            "others": sorted(set(others))}
+            "releases": releases, "others": sorted(set(others))}
 
 
 def opt(v):
@@ -100,22 +112,38 @@ def extract():
     mr = re.compile(r"\bmatch\s+result\s*\{").search(main, r1)
     if not mr:
         raise Shape("main.rs: `match result {` after the command not found")
-    chk_all = [m for m in re.finditer(r"\bif\s+interrupted\s*\.\s*load\s*\([^)]*\)\s*\{", main)]
-    chk_after = [m for m in chk_all if m.start() > r1]
-    flag_after = bool(chk_after)
-    before_match = False
-    code = 0
-    if chk_after:
-        c = chk_after[0]
-        cb = match_brace(main, c.end() - 1)
-        em = re.search(r"\bexit\s*\(\s*(\d+)\s*\)", main[c.end():cb])
+    arm_end = match_brace(main, mr.end() - 1)
+    scope, code = "none", 0
+    chk = [m for m in re.finditer(r"\bif\s+interrupted\s*\.\s*load\s*\([^)]*\)\s*\{", main) if r1 < m.start() < mr.start()]
+    if chk:
+        c = chk[0]
+        em = re.search(r"\bexit\s*\(\s*(\d+)\s*\)", main[c.end():match_brace(main, c.end() - 1)])
         if not em:
             raise Shape("main.rs: the flag check does not call exit(<constant>)")
-        code = int(em.group(1))
-        before_match = c.start() < mr.start()
+        scope, code = "all", int(em.group(1))
+    else:
+        lv = re.compile(r"\blet\s+(\w+)\s*=\s*interrupted\s*\.\s*load\s*\([^)]*\)\s*;").search(main, r1)
+        if lv and lv.start() < mr.start():
+            var = lv.group(1)
+            okarm = re.compile(r"\bOk\s*\(\s*\(\s*\)\s*\)\s*=>\s*\{").search(main, mr.end())
+            if okarm and okarm.start() < arm_end:
+                ob = match_brace(main, okarm.end() - 1)
+                t = re.search(r"\bif\s+" + var + r"\s*\{", main[okarm.end():ob])
+                if t:
+                    tb = match_brace(main, okarm.end() + t.end() - 1)
+                    em = re.search(r"\bexit\s*\(\s*(\d+)\s*\)", main[okarm.end() + t.end():tb])
+                    if not em:
+                        raise Shape("main.rs: the flag test in the Ok arm does not call exit(<constant>)")
+                    scope, code = "okOnly", int(em.group(1))
+            # the flag must not be consulted in the Err arm as well
+            errarm = re.compile(r"\bErr\s*\(\s*\w+\s*\)\s*=>\s*\{").search(main, mr.end())
+            if errarm and errarm.start() < arm_end:
+                eb = match_brace(main, errarm.end() - 1)
+                if re.search(r"\b" + var + r"\b", main[errarm.end():eb]):
+                    raise Shape("main.rs: the Err arm consults the interrupted flag too (shape unknown to the translator)")
     # exit statuses of the error arm
-    arm = main[mr.start():match_brace(main, mr.end() - 1)]
-    err_codes = sorted(set(int(x) for x in re.findall(r"(?<![\w.])(\d+)(?![\w.])", arm)) - {0})
+    arm = main[mr.start():arm_end]
+    err_codes = sorted(set(int(x) for x in re.findall(r"(?<![\w.])(\d+)(?![\w.])", arm)) - {0, code})
     # who receives the flag
     cmd = main[r0.start():r1]
     passed = []
@@ -149,17 +177,30 @@ def extract():
                 for m in re.finditer(r"ConfirmationPromptGuard::activate\s*\(", t):
                     fns = list(re.finditer(r"\bfn\s+(\w+)", t[:m.start()]))
                     users.append(os.path.relpath(p, repo) + "::" + (fns[-1].group(1) if fns else "?"))
-    return {"sigint": sigint, "sigterm": sigterm, "extra_handlers": extra_handlers, "flag_after": flag_after,
-            "before_match": before_match, "code": code, "err_codes": err_codes, "passed": passed,
-            "guard_ok": guard_ok, "users": sorted(users)}
+    lk = blank(open(os.path.join(repo, "renamify-core/src/lock.rs")).read())
+    held_ok = False
+    rel = re.search(r"pub\s+fn\s+release_held_locks\s*\(\s*\)\s*\{", lk)
+    if rel:
+        rb = lk[rel.end():match_brace(lk, rel.end() - 1)]
+        acq = re.search(r"pub\s+fn\s+acquire\s*\(", lk)
+        ab = ""
+        if acq:
+            o = lk.find("{", match_brace(lk, acq.end() - 1))
+            ab = lk[o:match_brace(lk, o)]
+        held_ok = (bool(re.search(r"HELD_LOCKS", rb)) and bool(re.search(r"remove_file\s*\(", rb)) and
+                   bool(re.search(r"held\s*\.\s*push\s*\(\s*lock_path", ab)))
+    return {"sigint": sigint, "sigterm": sigterm, "extra_handlers": extra_handlers, "scope": scope,
+            "code": code, "err_codes": err_codes, "passed": passed,
+            "guard_ok": guard_ok, "users": sorted(users), "held_ok": held_ok}
 
 
 def render(f):
     def handler(name, h):
-        return [f"/-- calls besides eprintln!/swap/store/exit/confirmation_prompt_active: {', '.join(h['others']) or 'none'} -/",
+        return [f"/-- calls besides eprintln!/swap/store/exit/confirmation_prompt_active/guarded release_held_locks: {', '.join(h['others']) or 'none'} -/",
                 f"def {name} : Handler :=",
                 f"  {{ setsFlag := {str(h['sets_flag']).lower()}, exitUnderPrompt := {opt(h['under'])}, "
-                f"exitAlways := {opt(h['always'])}, otherCalls := {len(h['others'])} }}", ""]
+                f"exitAlways := {opt(h['always'])}, releasesLocks := {str(h['releases']).lower()}, "
+                f"otherCalls := {len(h['others'])} }}", ""]
     out = ["/- GENERATED by translate/signal_handlers.py from renamify-cli/src/main.rs and renamify-core/src/interrupt.rs — do not edit -/",
            "namespace Gen.SignalHandlers", "",
            "structure Handler where",
@@ -169,6 +210,8 @@ def render(f):
            "  exitUnderPrompt : Option Nat",
            "  /-- `process::exit(c)` anywhere else in the body -/",
            "  exitAlways : Option Nat",
+           "  /-- `lock::release_held_locks()` is called inside the prompt-guard block, before the exit in it -/",
+           "  releasesLocks : Bool",
            "  /-- number of distinct other functions/methods called in the body -/",
            "  otherCalls : Nat",
            "  deriving DecidableEq, Repr", ""]
@@ -176,10 +219,13 @@ def render(f):
     out += handler("sigterm", f["sigterm"])
     out += ["/-- handler registrations in `main` beyond the two above -/",
             f"def extraHandlers : Nat := {f['extra_handlers']}", "",
-            "/-- `if interrupted.load(..) { .. exit(c) }` exists after `let result = match cli.command {..};` -/",
-            f"def flagCheckAfterCommand : Bool := {str(f['flag_after']).lower()}", "",
-            "/-- … and stands before `match result {` (so 130 wins over the command's own error code) -/",
-            f"def flagCheckBeforeResultMatch : Bool := {str(f['before_match']).lower()}", "",
+            "/-- where the interrupted flag decides the status, after `let result = match cli.command {..};`:",
+            "    all    = `if interrupted.load(..) { exit(c) }` before `match result` (c wins over the command's own status)",
+            "    okOnly = the flag is read after the command and tested only inside the `Ok(())` arm of `match result`",
+            "    none   = no such test -/",
+            "inductive FlagScope where | all | okOnly | none",
+            "  deriving DecidableEq, Repr", "",
+            f"def flagScope : FlagScope := .{f['scope']}", "",
             f"def interruptExitCode : Nat := {f['code']}", "",
             "/-- the non-zero constants of the `match result` arm -/",
             f"def errorExitCodes : List Nat := [{', '.join(str(c) for c in f['err_codes'])}]", "",
@@ -192,6 +238,8 @@ def render(f):
             f"def promptGuardUsers : Nat := {len(f['users'])}",
             "def promptGuardOnlyInRenameConfirmation : Bool := "
             + str(f["users"] == ["renamify-core/src/operations/rename.rs::get_user_confirmation"]).lower(), "",
+            "/-- lock.rs: acquire registers the lock path in HELD_LOCKS; release_held_locks removes every registered file -/",
+            f"def heldLocksReleasable : Bool := {str(f['held_ok']).lower()}", "",
             "end Gen.SignalHandlers", ""]
     return "\n".join(out)
 
